@@ -7,9 +7,12 @@ EXTENDS Training, Json, IOUtils
 Obs == ndJsonDeserialize(IOEnv.QA_OBS_FILE)
 VARIABLE l
 Reject(o, clause, detail) == PrintT(<<"REJECT", o.id, clause, ToString(detail)>>)
+\* the builders take a LIST of entries: the expected output is the concatenation, entry by entry
+RECURSIVE ExpectedAll(_, _)
+ExpectedAll(entries, k) == IF k > Len(entries) THEN <<>> ELSE Samples(entries[k].cands, entries[k].gold) \o ExpectedAll(entries, k + 1)
 Check(o) ==
   IF o.kind = "samples"
-  THEN LET e == Samples(o.cands, o.gold) IN
+  THEN LET e == ExpectedAll(o.entries, 1) IN
        /\ IF Len(o.samples) = Len(e) THEN TRUE ELSE Reject(o, "number-of-samples", Len(e))
        /\ IF Len(o.samples) # Len(e) \/ \A i \in 1..Len(e) : o.samples[i].X = e[i].X THEN TRUE ELSE Reject(o, "sample-is-not-a-trace-prefix", o.builder)
        /\ IF Len(o.samples) # Len(e) \/ \A i \in 1..Len(e) : o.samples[i].y = e[i].y THEN TRUE ELSE Reject(o, "label-not-by-value", o.builder)
